@@ -409,14 +409,15 @@ class ExprMixin:
         """a == b for operands none of which is an EmptyCell (z3 Bool); lists compare by an uninterpreted
         relation (imprecise, flagged)."""
         same_kind_other = z3.And(z3.Not(T.is_num(a)), z3.Not(T.is_num(b)))
-        return z3.If(z3.And(T.is_num(a), T.is_num(b)), T.real_of(a) == T.real_of(b),
+        return z3.If(z3.And(T.is_intlike(a), T.is_intlike(b)), T.int_of(a) == T.int_of(b),
+               z3.If(z3.And(T.is_num(a), T.is_num(b)), T.real_of(a) == T.real_of(b),
                z3.If(z3.And(is_('Str', a), is_('Str', b)), V.sval(a) == V.sval(b),
                z3.If(z3.And(is_('DateTime', a), is_('DateTime', b)), T.dt_key(a) == T.dt_key(b),
                z3.If(z3.And(is_('Date', a), is_('Date', b)), V.dord(a) == V.dord(b),
                z3.If(z3.And(is_('List', a), is_('List', b)), z3.Or(a == b, list_eq(a, b)),
                z3.If(z3.And(is_('Tuple', a), is_('Tuple', b)), z3.Or(a == b, list_eq(a, b)),
                      z3.And(same_kind_other, a == b, z3.Not(is_('DateTime', a)), z3.Not(is_('Date', a)),
-                            z3.Not(is_('Str', a)))))))))
+                            z3.Not(is_('Str', a))))))))))
 
     def p_eq(self, st, a, b, negate=False):
         """Python ==; returns outcomes with V.Bool values. Blank cells dispatch to the real EmptyCell.__eq__."""
@@ -789,13 +790,13 @@ class ExprMixin:
         return [(st, V.Int({'year': y, 'month': m, 'day': d}[attr]))]
 
     def ymd_of(self, st, ordv):
-        """(year, month, day) of an ordinal: one triple of constants per ordinal term and path (so that .year, .month
-        and .day of the same value are known to belong together)."""
+        """(year, month, day) of an ordinal through the decomposition functions year_of / month_of / day_of (shared
+        with the specifications), with their characterisation added once per ordinal term and path."""
         hit = st.ymd.get(ordv.get_id())
+        y, m, d = T.year_of(ordv), T.month_of(ordv), T.day_of(ordv)
         if hit is not None:
-            return st, hit[1], hit[2], hit[3]
-        y, m, d = fresh('y', T.I), fresh('m', T.I), fresh('d', T.I)
-        st = st.add(T.valid_ymd(y, m, d), T.ymd_to_ord(y, m, d) == ordv)
+            return st, y, m, d
+        st = st.add(*T.decomposition_facts(ordv))
         st.ymd = dict(st.ymd)
         st.ymd[ordv.get_id()] = (ordv, y, m, d)
         return st, y, m, d
